@@ -1348,9 +1348,11 @@ func (*reader).GC
     ensures[gc_unload] (r.index == old(r.index) || r.index == nil) && (r.messages == old(r.messages) || r.messages == nil)
     ensures[gc_inuse]  old(r.messagesInuse) > 0 ==> r.messages == old(r.messages)
 func (*reader).Close
-    flags locks lockonly
+    flags locks only_locks only_struct
     requires[locks] rdLocksFree()
     assigns reader.index, reader.messages
+    // a closed reader holds neither a cached index nor a mapped file: both are reloaded from the files on next use
+    ensures[struct_closed] ret0 == nil ==> r.index == nil && r.messages == nil
 func (*reader).Delete
     flags locks only_locks only_sync only_order only_crash only_struct only_version
     requires[sync_src] rs != nil && !fsDirty[rs.Log] && !fsDirty[rs.Index]
@@ -1365,6 +1367,9 @@ func (*reader).Delete
     ensures[struct_gone]   ret1 == nil ==> (ret0 == nil <==> len(rs.SurviveOffsets) == 0)
     ensures[version_kept]  ret1 == nil && ret0 != nil ==> ret0.version == old(r.version) && ret0.params == old(r.params)
     ensures[struct_frame]  r.segment == old(r.segment) && r.head == old(r.head)
+    // C12/C01: when the rewritten segment keeps its base the same reader is reused; it must have dropped its cached
+    // index and its mapping of the replaced file, or later reads pair the new index with the old file
+    ensures[struct_reset]  ret1 == nil && ret0 == r ==> r.index == nil && r.messages == nil
     // C05: the original is removed only after its replacement is in place (rebase branch)
     assert[order_replace_first] distinct4(rs.Log, rs.Index, nseg.Log, nseg.Index) ==> fsExists[nseg.Log] && fsExists[nseg.Index] at call (Segment).Remove 3
     // C05 crash invariant noDup: no two segment files with overlapping offsets at any step. Fails on the
